@@ -1,13 +1,13 @@
 -- REGENERATED on every run by vlib/checks/sched_common.py (harness/cmd/schedfacts + behavioural probe) from /repo's sched.go.
-import OllamaVerif.Model.Sched
+import OllamaVerif.Model.SchedChan
 namespace OllamaVerif.Generated.C01
 open OllamaVerif.Sched
-/-- extractor output: deletes=1 guardedDeletes=1 bareDeletes=0; guardDeleteAst=guarded; recheckInUse=present callerRetries=present; recheckGrantAst=present; deletesElsewhere=0; expiredCaseFound=true; expiredAtomic=true; unloadUnderLoadedMu=true; evictBlockFound=true; evictAtomic=true; enqueueNonBlocking=true; waitUnloadPure=true; unloadedChRecvArms=2; cap_pendingReqCh=envconfigMaxQueue; cap_finishedReqCh=envconfigMaxQueue; cap_expiredCh=envconfigMaxQueue; cap_unloadedCh=envconfigMaxQueue; inlinedHelpers= -/
+/-- extractor output: deletes=1 guardedDeletes=1 bareDeletes=0; guardDeleteAst=guarded; recheckInUse=present callerRetries=present; recheckGrantAst=present; deletesElsewhere=0; expiredCaseFound=true; expiredAtomic=true; unloadUnderLoadedMu=true; evictBlockFound=true; evictAtomic=true; enqueueNonBlocking=true; waitUnloadPure=true; unloadedChRecvArms=2; cap_pendingReqCh=envconfigMaxQueue; cap_finishedReqCh=envconfigMaxQueue; cap_expiredCh=envconfigMaxQueue; cap_unloadedCh=envconfigMaxQueue; expiredOrderFixed=true; idleDrains=true; unloadClosesOnce=true; sendSites=expiredCh:,expiredCh:loadedMu+refMu,expiredCh:refMu,finishedReqCh:,pendingReqCh:,unloadedCh:; inlinedHelpers=notifyFinished -/
 def extractorOutput : Unit := ()
 /-- the variant of the model the tree implements: each flag = (the real scheduler stays inside the property on the
     F12a resp. F12b witness schedules) AND (go/ast does not find an unguarded delete resp. a missing re-check);
-    probe ran=True guardDelete=True recheckGrant=True; go/ast guardDelete=guarded recheckGrant=present -/
-def treeVariant : Variant := ⟨true, true⟩
+    probe ran=True guardDelete=False recheckGrant=True; go/ast guardDelete=guarded recheckGrant=present -/
+def treeVariant : Variant := ⟨false, true⟩
 def deletesElsewhere : Nat := 0
 /-- the expired handler tests refCount and unloads in ONE critical section of refMu (no check-then-act window) -/
 def expiredAtomic : Bool := true
@@ -25,4 +25,12 @@ def waitUnloadPure : Bool := true
 def unloadedChRecvArms : Nat := 2
 /-- InitScheduler makes all four scheduler channels with capacity envconfig.MaxQueue() (the model's `maxQueue`) -/
 def chanCapsAreMaxQueue : Bool := true
+/-- the parameters of the bounded model (Model/SchedChan.lean): ⟨the expired case takes loadedMu before refMu, the idle
+    select of processPending receives from unloadedCh⟩ -/
+def treeCfg : OllamaVerif.SchedChan.Cfg := ⟨true, true⟩
+/-- unload() calls Close() only where `llama != nil` is implied and sets llama = nil afterwards; no other Close() site
+    except unloadAllRunners (shutdown): a second unload() of a runner is a no-op (the model's `if x.closed` in `cExp`) -/
+def unloadClosesOnce : Bool := true
+/-- every blocking send on a scheduler channel with the mutexes (textually) held there, as a sorted set -/
+def sendSites : List (String × List String) := [("expiredCh", []), ("expiredCh", ["loadedMu", "refMu"]), ("expiredCh", ["refMu"]), ("finishedReqCh", []), ("pendingReqCh", []), ("unloadedCh", [])]
 end OllamaVerif.Generated.C01
